@@ -218,6 +218,7 @@ fn resource_leaf(framed: bool) -> BoxedStrategy<E> {
             1 => "[a-c*?]{1,3}",
             1 => (0u32..400).prop_map(|i| format!("n{i}")),
             // a string and its escaped spelling, with and without glob characters
+            1 => prop::sample::select(vec!["src", "src/i", "a/i", "foo/i", "foo", "*.c/i", "*.c", "x|i", "x"]).prop_map(|s| s.to_string()),
             1 => prop::sample::select(vec!["a\"b", "a\\\"b", "x\\y", "x\\\\y", "draft\\?", "draft\\\\?", "q\"*", "q\\\"*"]).prop_map(|s| s.to_string()),
         ]
     };
